@@ -225,13 +225,11 @@ aliquot_intervener_remover_regex = re.compile(
     fr"""
     (?P<aliquot1>({aliquot_simple})+)  # first aliquot component
     (
-        # any amount of whitespace on the same line (to be removed)
-        [^\S\r\n]*
-        
-        # 'of the' or 'of' (to be removed)
-        ([^\S\r\n]+|of|o|f|o+f+)\s*(t+h+e+|t+e+h+|t+h+|t+)?
-        
-        \s*     # any amount of whitespace (to be removed)
+        # 'of the' or 'of' (to be removed), after which the text may wrap
+        [^\S\r\n]*(of|o|f|o+f+)\s*(t+h+e+|t+e+h+|t+h+|t+)?\s*
+        |
+        # or whitespace on the same line only (to be removed)
+        [^\S\r\n]+((t+h+e+|t+e+h+|t+h+|t+)[^\S\r\n]*)?
     )
     (?P<aliquot2>{aliquot_simple})  # second aliquot component
     """, re.IGNORECASE | re.VERBOSE)
